@@ -35,9 +35,9 @@ def DeathObs.text : DeathObs → String
 def parseDeath : String → DeathObs
   | "e0" => .e0 | "en" => .en | "st" => .st | "sk" => .sk | "so" => .so | _ => .nr
 def TermObs.text : TermObs → String
-  | .none => "t0" | .neg => "tneg" | .at k => s!"t{k}"
+  | .none => "tno" | .neg => "tneg" | .at k => s!"t{k}"
 def parseTermObs (s : String) : TermObs :=
-  if s == "t0" then .none else if s == "tneg" then .neg
+  if s == "tno" then .none else if s == "tneg" then .neg
   else match ((s.drop 1).toString).toNat? with
     | some k => .at k
     | none => .neg
